@@ -18,6 +18,16 @@ SPECIAL = [
     {"type": "object", "properties": {"e": {"enum": ["yes", "no", "on", "1", "null", "~"]}, "d": {"type": "string", "default": "true"}, "k": {"type": "string", "default": "12"}}},
 ]
 
+DUPLICATE_KEYS = [
+    '{"$id":"http://example.com/inv","type":"object","properties":{"tags":{"type":"array","items":{"type":"string"},"items":ANY},'
+    '"labels":{"type":"object","properties":{"owner":{"type":"string"}},"additionalProperties":{"type":"integer"},"additionalProperties":ANY2}}}',
+    '{"type":"object","properties":{"tags":{"type":"array","items":ANY,"items":{"type":"string","minLength":1}},'
+    '"labels":{"type":"object","additionalProperties":ANY2,"additionalProperties":{"type":"integer"}}}}',
+    '{"type":"object","$defs":{"L":{"type":"array","items":{"type":"object","properties":{"a":{"type":"string"}}},"items":ANY}},'
+    '"properties":{"l":{"$ref":"#/$defs/L"},"a":{"type":"string","minLength":2},"a":ANY2,"m":{"type":"object","additionalProperties":{"type":"array","items":{"type":"number"},"items":ANY}}},'
+    '"additionalProperties":{"type":"string"},"additionalProperties":ANY2}',
+]
+
 
 def run(ctx):
     ctx.proof_step(PROPS_FILE)
@@ -85,6 +95,14 @@ def run(ctx):
                 runs.append(Run("fn%d_%s_%d" % (oi, ext, dotted), {"in/order." + ext: render(sc)}, argv))
                 meta.append((si, "file-name %s %s" % (ext, "dotted" if dotted else "dot-less")))
         schemas.append(sc)
+    # documents in which a keyword occurs twice in one object (legal JSON, the last occurrence counts): the anything-schema as `true` and as `{}` in either place
+    for ti, tpl in enumerate(DUPLICATE_KEYS):
+        si = len(schemas)
+        for first, second in (("true", "{}"), ("{}", "true"), ("true", "true"), ("{}", "{}")):
+            text = tpl.replace("ANY2", second).replace("ANY", first)
+            runs.append(Run("dk%d_%s%s" % (ti, "t" if first == "true" else "e", "t" if second == "true" else "e"), {"in/s.json": text}, ["-p", "pkg", "in/s.json"]))
+            meta.append((si, "duplicate-keys %s/%s" % (first, second)))
+        schemas.append({"raw": tpl})
     run_all(ctx, runs)
     by = {}
     for r, (si, vn) in zip(runs, meta):
